@@ -156,11 +156,14 @@ def record(args):
             X = X + rng.integers(-2, 3, size=(n, p)) / 8.0  # avoid zero-variance windows dominating
         tuned = bool(rng.integers(0, 4) == 0)
         rid = f"mw-{seed}-{i}"
+        # integer-valued data are passed to the detector as int64 half of the time (the reference values below are
+        # always computed from the float copy): the scores must not depend on the dtype of the container
+        Xin = X.astype(np.int64) if np.all(X == np.round(X)) and rng.integers(0, 2) else X
         try:
             det = MovingWindow(change_score=mk(), bandwidth=b, threshold_scale=None if tuned else float(rng.choice([0.3, 1.0, 2.0])),
-                               level=float(rng.choice([0.05, 0.2])), min_detection_interval=mdi).fit(X)
-            sc = det.transform_scores(X).to_numpy().ravel()
-            cps = [int(c) for c in det.predict(X)["ilocs"].to_numpy()]
+                               level=float(rng.choice([0.05, 0.2])), min_detection_interval=mdi).fit(Xin)
+            sc = det.transform_scores(Xin).to_numpy().ravel()
+            cps = [int(c) for c in det.predict(Xin)["ilocs"].to_numpy()]
             rsc = MovingWindow(change_score=mk(), bandwidth=b, threshold_scale=1.0).fit(X[::-1].copy()) \
                 .transform_scores(X[::-1].copy()).to_numpy().ravel()
             ref = mk().fit(X)
